@@ -102,6 +102,7 @@ type c31S3 struct {
 	n      int
 	asked  []string // every key handed to PutObject, in order
 	order  []string // keys successfully put, in order
+	uploads map[string]*c31Upload
 }
 
 func (f *c31S3) PutObject(ctx context.Context, params *s3.PutObjectInput, optFns ...func(*s3.Options)) (*s3.PutObjectOutput, error) {
@@ -117,6 +118,67 @@ func (f *c31S3) PutObject(ctx context.Context, params *s3.PutObjectInput, optFns
 	}
 	return out, err
 }
+
+// multipart at the S3-API level (the real s3Uploader.multipartUpload runs above it): the
+// object is the concatenation of the listed parts; one fault-oracle entry per upload, taken at
+// PutObject or CreateMultipartUpload
+func (f *c31S3) CreateMultipartUpload(ctx context.Context, params *s3.CreateMultipartUploadInput, optFns ...func(*s3.Options)) (*s3.CreateMultipartUploadOutput, error) {
+	idx := f.n
+	f.n++
+	f.asked = append(f.asked, *params.Key)
+	if idx < len(f.faults) && f.faults[idx] {
+		return nil, errors.New("verif: injected put failure")
+	}
+	if f.uploads == nil {
+		f.uploads = map[string]*c31Upload{}
+	}
+	id := fmt.Sprintf("up-%d", idx)
+	f.uploads[id] = &c31Upload{key: *params.Key, parts: map[int32][]byte{}}
+	return &s3.CreateMultipartUploadOutput{UploadId: &id}, nil
+}
+func (f *c31S3) UploadPart(ctx context.Context, params *s3.UploadPartInput, optFns ...func(*s3.Options)) (*s3.UploadPartOutput, error) {
+	up, ok := f.uploads[*params.UploadId]
+	if !ok {
+		return nil, errors.New("NoSuchUpload")
+	}
+	data, _ := io.ReadAll(params.Body)
+	up.parts[*params.PartNumber] = data
+	etag := fmt.Sprintf("\"e%d\"", *params.PartNumber)
+	return &s3.UploadPartOutput{ETag: &etag}, nil
+}
+func (f *c31S3) CompleteMultipartUpload(ctx context.Context, params *s3.CompleteMultipartUploadInput, optFns ...func(*s3.Options)) (*s3.CompleteMultipartUploadOutput, error) {
+	up, ok := f.uploads[*params.UploadId]
+	if !ok {
+		return nil, errors.New("NoSuchUpload")
+	}
+	obj := []byte{}
+	prev := int32(0)
+	if params.MultipartUpload != nil {
+		for _, cp := range params.MultipartUpload.Parts {
+			data, ok := up.parts[*cp.PartNumber]
+			if !ok || *cp.PartNumber <= prev {
+				return nil, errors.New("InvalidPart")
+			}
+			prev = *cp.PartNumber
+			obj = append(obj, data...)
+		}
+	}
+	f.fakeS3.objects[up.key] = obj
+	f.order = append(f.order, up.key)
+	delete(f.uploads, *params.UploadId)
+	return &s3.CompleteMultipartUploadOutput{}, nil
+}
+func (f *c31S3) AbortMultipartUpload(ctx context.Context, params *s3.AbortMultipartUploadInput, optFns ...func(*s3.Options)) (*s3.AbortMultipartUploadOutput, error) {
+	delete(f.uploads, *params.UploadId)
+	return &s3.AbortMultipartUploadOutput{}, nil
+}
+
+type c31Upload struct {
+	key   string
+	parts map[int32][]byte
+}
+
+const c31Chunk = 64 // s3Uploader.chunkSize in this harness: multipart for values above 64 bytes
 
 func (f *c31S3) storeNewestFirst() [][2][]byte {
 	var out [][2][]byte
@@ -466,7 +528,7 @@ func c31Run(cs c31Case, tb *c31Tables) c31Obs {
 	logger := slog.New(slog.NewTextHandler(io.Discard, nil))
 	m := &lfsModule{
 		logger:      logger,
-		s3Uploader:  &s3Uploader{bucket: cs.Bucket, region: "us-east-1", chunkSize: 5 << 20, api: fs3, presign: &fakePresign{}},
+		s3Uploader:  &s3Uploader{bucket: cs.Bucket, region: "us-east-1", chunkSize: c31Chunk, api: fs3, presign: &fakePresign{}},
 		s3Bucket:    cs.Bucket,
 		s3Namespace: "ns",
 		maxBlob:     cs.MaxBlob,
@@ -765,7 +827,7 @@ func c31Coq(cs c31Case, obs c31Obs, tb *c31Tables) string {
 	for i, x := range obs.store {
 		store[i] = fmt.Sprintf("(%s, %s)", in.B(x[0]), in.B(x[1]))
 	}
-	cfg := fmt.Sprintf("(mkCfg %s %s %s %s %d)", in.S(cs.Bucket), in.S("verif-proxy"), cqZ(cs.MaxBlob), in.S(cs.DefaultAlg), 5<<20)
+	cfg := fmt.Sprintf("(mkCfg %s %s %s %s %d)", in.S(cs.Bucket), in.S("verif-proxy"), cqZ(cs.MaxBlob), in.S(cs.DefaultAlg), c31Chunk)
 	return in.wrap(fmt.Sprintf("mkCase %s %s %s %s %s %s %s %s %s %s %s %s %s %s %s", cfg, bl(obs.in), cqList(supply), cqList(faults),
 		cqList(dec), cqList(decompT), cqList(compT), cqList(hash), cqList(envT),
 		cqZ(int64(obs.code)), bl(obs.out), cqList(store), cqZ(obs.bytes), cqList(orph), cqBool(obs.modified)))
@@ -827,6 +889,10 @@ func c31GenRec(r *vRand, flagPct int, idx int) c31Rec {
 		rec.Hdrs = append(rec.Hdrs, h)
 	}
 	if r.Chance(flagPct) {
+		if r.Chance(35) { // sizes around the uploader's chunk size: PutObject vs multipart, short last part
+			sizes := []int{0, 1, c31Chunk - 1, c31Chunk, c31Chunk + 1, 2*c31Chunk - 1, 2 * c31Chunk, 2*c31Chunk + 1, 5*c31Chunk + 7}
+			rec.Val = r.Bytes(sizes[r.Intn(len(sizes))])
+		}
 		sum := sha256.Sum256(rec.Val)
 		sha := hex.EncodeToString(sum[:])
 		md := md5.Sum(rec.Val)
@@ -1200,6 +1266,18 @@ func TestVerifC31(t *testing.T) {
 				c31Rec{Key: []byte("b"), Val: []byte("v2"), Hdrs: []c31Hdr{{K: "x", V: []byte("1")}, {K: "LFS_BLOB", V: []byte{}}, {K: "x", V: []byte("2")}, {K: "LFS_BLOB", V: nil}, {K: "lfs_blob", V: []byte("keep")}, {K: "LFS_BLOB", V: []byte("q")}}},
 				c31Rec{Key: []byte("c"), Val: []byte("v3"), Hdrs: []c31Hdr{{K: "LFS_BLOB_ALG", V: []byte("md5")}, {K: "LFS_BLOB", V: nil}, {K: "LFS_BLOB_ALG", V: []byte("bogus")}, {K: "", V: nil}, {K: "", V: []byte{}}, {K: "LFS_BLOB", V: []byte{}}}},
 				c31Rec{Key: []byte("d"), Val: []byte("v4"), Hdrs: []c31Hdr{{K: "x", V: []byte("1")}, {K: "x", V: []byte("1")}, {K: "Lfs_Blob", V: nil}}})}}}}}},
+			// flagged values of sizes 0, 1, chunk-1, chunk, chunk+1, 2chunk-1, 2chunk, 2chunk+1, 5chunk+7
+			func() c31Case {
+				var recs []c31Rec
+				for i, n := range []int{0, 1, c31Chunk - 1, c31Chunk, c31Chunk + 1, 2*c31Chunk - 1, 2 * c31Chunk, 2*c31Chunk + 1, 5*c31Chunk + 7} {
+					v := make([]byte, n)
+					for j := range v {
+						v[j] = byte(i*31 + j*7)
+					}
+					recs = append(recs, c31Rec{Key: []byte{byte(i)}, Off: int32(i), Val: v, Hdrs: []c31Hdr{{K: "LFS_BLOB", V: nil}}})
+				}
+				return c31Case{DefaultAlg: "sha256", MaxBlob: 1 << 20, Bucket: "bkt", Topics: []c31Topic{{Name: "orders", Parts: []c31Part{{Batches: []c31Batch{plainB(0, recs[:5]...), plainB(1, recs[5:]...)}}}}}}
+			}(),
 			// malformed: NumRecords smaller than the records present
 			{DefaultAlg: "sha256", MaxBlob: 1 << 20, Bucket: "bkt", Topics: []c31Topic{{Name: "t", Parts: []c31Part{{Batches: []c31Batch{{Magic: 2, Recs: []c31Rec{flagRec, {Val: []byte("x")}}, NumAdj: -1}}}}}}},
 		}
